@@ -7,12 +7,12 @@
 (* only own policy entries).                                                *)
 EXTENDS Authz, TLC
 
-CONSTANTS Callers, PolicyClients, DeepReload
+CONSTANTS Callers, PolicyClients, DeepReload, LenSet
 VARIABLES last, phase
 mcvars == <<vars, last, phase>>
 
 Owner == [cid |-> "owner", epoch |-> 1]
-Present == [exists : {TRUE}, paused : BOOLEAN, readonly : BOOLEAN, len : {0, 1}, plain : {0, 1}, gsub : {NoSub, Owner}]
+Present == [exists : {TRUE}, paused : BOOLEAN, readonly : BOOLEAN, len : LenSet, plain : {0, 1}, gsub : {NoSub, Owner}]
 \* pausing a partition closes its subscriptions
 StreamClasses == {Absent} \cup {r \in Present : r.paused => (r.plain = 0 /\ r.gsub = NoSub)}
 Busy == [exists |-> TRUE, paused |-> FALSE, readonly |-> FALSE, len |-> 1, plain |-> 1, gsub |-> Owner]
@@ -26,15 +26,18 @@ PolicyChoices == {{}, Entries} \cup {Entries \ {e} : e \in E0} \cup {{e} : e \in
                  \cup {{e \in Entries : e[1] \notin PolicyClients}}
 
 \* canonical request shapes (fields a method does not read are fixed)
-CallChoices ==
-  {c \in Calls :
-     /\ c.c \in Callers
+\* (built from the calls with a verified certificate; the other credentials are variants of the plain shapes)
+BaseChoices ==
+  {c \in [m : Methods, c : Callers, s : Streams, resume : BOOLEAN, grp : BOOLEAN, epoch : 0..2, ro : BOOLEAN,
+           cred : {"verified"}] :
      /\ (c.m # "Subscribe" => (~c.resume /\ ~c.grp))
      /\ (~c.grp => c.epoch = 0)
      /\ (c.m # "SetStreamReadonly" => ~c.ro)
      /\ (c.m = "FetchMetadata" => c.s = "s1")
      /\ (c.m = "PublishToSubject" => c.s # CursorsStream)
      /\ (c.m \in GroupMethods => c.s = "s2")}
+CallChoices ==
+  BaseChoices \cup {[c EXCEPT !.cred = k] : c \in {x \in BaseChoices : ~x.resume /\ ~x.grp /\ ~x.ro}, k \in {"forged", "none"}}
 
 EntryOf(call) == <<call.c, ResourceOf(call), ActionOf(call.m)>>
 Toggle(p, e) == IF e \in p THEN p \ {e} ELSE p \cup {e}
@@ -48,6 +51,8 @@ MCInit ==
   /\ members \in {{"owner"}, {"owner"} \cup Callers}
   /\ sessions = {}
   /\ enforcer \in BOOLEAN /\ (~enforcer => policy = {})     \* no enforcer: nothing is loaded
+  \* client-certificate verification off: explored with the policy that grants everything (nothing may pass)
+  /\ clientAuth \in BOOLEAN /\ (~clientAuth => (policy = Entries /\ enforcer))
   /\ obs = [a |-> "Open", res |-> "Ok"]
   /\ last = [a |-> "Open"] /\ phase = 0
 
@@ -56,6 +61,7 @@ MCCall(call) ==
      \/ phase = 2 /\ call = last.call /\ phase' = 5      \* edited, not yet reloaded: the loaded policy still decides
      \/ phase = 3 /\ call = last.call /\ phase' = 4
   /\ (call.s = CursorsStream) => (call.m \in HarmlessOnSys \/ Unauthorised(EffPolicy, call))
+  /\ (call.cred # "verified") => policy = Entries     \* a caller without verified identity against the full policy
   /\ DoCall(call)
   /\ last' = [a |-> "Call", call |-> call]
 
@@ -71,12 +77,22 @@ MCReloadFail ==
   /\ DoReload
   /\ last' = [a |-> "Reload", call |-> last.call]
 
+\* after a call, ANOTHER client makes the same request on the other user stream (a decision made for one
+\* (client, resource, action) must not leak to a different triple)
+MCOther(call) ==
+  /\ phase = 1 /\ phase' = 8
+  /\ call.c \in Callers /\ call.c # last.call.c /\ call.s \in UserStreams \ {last.call.s}
+  /\ last.call.s \in UserStreams /\ last.call.cred = "verified"
+  /\ call = [last.call EXCEPT !.c = call.c, !.s = call.s]
+  /\ DoCall(call)
+  /\ last' = [a |-> "Call", call |-> call]
+
 MCEdit ==
   /\ phase \in {1, 7} /\ phase' = 2
   /\ enforcer
   /\ DeepReload \/ policy = {} \/ policy = Entries
   /\ DoEditPolicy(Toggle(policyFile, EntryOf(last.call)))
-  /\ last' = [a |-> "EditPolicy", call |-> last.call]
+  /\ \E how \in {"inplace", "rename"} : last' = [a |-> "EditPolicy", call |-> last.call, how |-> how]
 
 MCReload ==
   /\ phase = 2 /\ phase' = 3
@@ -87,6 +103,8 @@ MCNext ==
   \/ (phase \in {0, 2, 3}) /\ \E call \in CallChoices : MCCall(call)
   \/ MCEdit
   \/ MCReload
+  \/ (phase = 1 /\ last.call.s \in UserStreams) /\
+       \E c \in Callers \ {last.call.c}, s \in UserStreams \ {last.call.s} : MCOther([last.call EXCEPT !.c = c, !.s = s])
   \/ MCBreak
   \/ MCReloadFail
 
